@@ -2948,6 +2948,9 @@ func (c *Ctx) checkReportedErrorNotOverwritten() {
 				n++
 				r.Func(fk(fn))
 				lost := errorDiesUnused(b, i+1, e)
+				if lost != nil && c.errorNilWhereItDies(fn, e, lost) {
+					lost = nil
+				}
 				callee := "call"
 				if cv, ok := e.(*ssa.Call); ok {
 					if f := core.CalleeOf(&cv.Call); f != nil {
@@ -3153,7 +3156,7 @@ func (c *Ctx) checkReaderRowUnderChannelName() {
 		}
 		return false
 	}
-	n := 0
+	n, cand := 0, 0
 	for _, fn := range c.P.ModFuncs {
 		if !core.InPkg(fn, "server") || fn.Parent() != nil || !isPtrToNamedRecv(fn, "Topic") {
 			continue
@@ -3169,8 +3172,12 @@ func (c *Ctx) checkReaderRowUnderChannelName() {
 				continue
 			}
 			args := call.Call.Args
-			if len(args) < 2 || !core.IsFieldLoad(nameF)(args[0]) || !isActing(fn, args[1], 0) {
+			if len(args) < 2 || !isActing(fn, args[1], 0) {
 				continue
+			}
+			cand++
+			if !core.IsFieldLoad(nameF)(args[0]) {
+				continue // the name is computed (a choice between the two spellings): nothing to ask here
 			}
 			// does this function know how the request was addressed?
 			flag := func(v ssa.Value) bool { return isFlag(fn, v, 0) }
@@ -3208,7 +3215,7 @@ func (c *Ctx) checkReaderRowUnderChannelName() {
 				"the acting user's subscription row is addressed by the group spelling of the topic name although the request may have come in through the channel name: a channel reader's row lives under chnXXX, the write is acknowledged and lands nowhere (or on the wrong row)")
 		}
 	}
-	r.Check(n >= 1, rule, "writes of the acting user's row under Topic.name in channel-aware handlers", "-", fmt.Sprintf("%d", n), "none: anchor lost")
+	r.Check(cand >= 3, rule, "writes of the acting user's own subscription row in Topic methods", "-", fmt.Sprintf("%d (%d under the bare Topic.name)", cand, n), "fewer than three: anchor lost")
 }
 
 // paramAtCallers: pred holds for the argument bound to parameter p at every call site of fn (and
@@ -3234,4 +3241,709 @@ func (c *Ctx) paramAtCallers(fn *ssa.Function, p *ssa.Parameter, pred func(calle
 		}
 	}
 	return true
+}
+
+// errorNilWhereItDies: e is the error result of a module function that returns it together with
+// another result (`tags, resp, err := validate(...)`), and the place where e is overwritten is
+// reached only when that other result is nil - while the function never returns a possibly
+// non-nil error together with a possibly nil value of that result (err != nil implies resp != nil):
+// there is no error to lose there.
+func (c *Ctx) errorNilWhereItDies(fn *ssa.Function, e ssa.Value, at ssa.Instruction) bool {
+	ex, ok := e.(*ssa.Extract)
+	if !ok {
+		return false
+	}
+	call, ok := ex.Tuple.(*ssa.Call)
+	if !ok {
+		return false
+	}
+	g := call.Call.StaticCallee()
+	if g == nil || !core.InModule(g) || len(g.Blocks) == 0 || call.Referrers() == nil {
+		return false
+	}
+	for _, ref := range *call.Referrers() {
+		sib, ok := ref.(*ssa.Extract)
+		if !ok || sib.Index == ex.Index {
+			continue
+		}
+		switch sib.Type().Underlying().(type) {
+		case *types.Pointer, *types.Interface, *types.Map, *types.Slice:
+		default:
+			continue
+		}
+		implies := true
+		core.AllInstrs(g, func(in ssa.Instruction) {
+			ret, isRet := in.(*ssa.Return)
+			if !isRet || len(ret.Results) <= ex.Index || len(ret.Results) <= sib.Index {
+				return
+			}
+			if core.IsNil(core.Strip(ret.Results[ex.Index])) {
+				return
+			}
+			if !nonNilish(ret.Results[sib.Index], 0) {
+				implies = false
+			}
+		})
+		if !implies {
+			continue
+		}
+		saved := core.NoLift
+		core.NoLift = true
+		okG, cnt := core.GuardedBy(fn, at, core.NilGuard("sibling result == nil", func(v ssa.Value) bool { return v == ssa.Value(sib) }, true))
+		core.NoLift = saved
+		if okG && cnt[0] > 0 {
+			return true
+		}
+	}
+	return false
+}
+
+// nonNilish: v is syntactically a fresh or addressed object, or the result of a module function
+// that only returns such.
+func nonNilish(v ssa.Value, d int) bool {
+	switch x := core.Strip(v).(type) {
+	case *ssa.Alloc, *ssa.MakeInterface, *ssa.MakeMap, *ssa.MakeSlice, *ssa.MakeClosure, *ssa.FieldAddr, *ssa.IndexAddr, *ssa.Global, *ssa.Function:
+		return true
+	case *ssa.Phi:
+		if d > 3 {
+			return false
+		}
+		for _, e := range x.Edges {
+			if !nonNilish(e, d+1) {
+				return false
+			}
+		}
+		return len(x.Edges) > 0
+	case *ssa.Call:
+		if known, isNil := errorsNewNonNil(x); known && !isNil {
+			return true
+		}
+		g := x.Call.StaticCallee()
+		if g == nil || !core.InModule(g) || len(g.Blocks) == 0 || d > 2 || g.Signature.Results().Len() != 1 {
+			return false
+		}
+		all, n := true, 0
+		core.AllInstrs(g, func(in ssa.Instruction) {
+			if ret, ok := in.(*ssa.Return); ok && len(ret.Results) == 1 {
+				n++
+				if !nonNilish(ret.Results[0], d+1) {
+					all = false
+				}
+			}
+		})
+		return all && n > 0
+	}
+	return false
+}
+
+// checkDraftySpanBounds (C13): message content is rendered into push previews (drafty.PlainText /
+// Preview, in a goroutine without recover). The positions of a style come from the client; a span
+// is kept for rendering (appended to the span list of toTree) only behind all three range tests:
+// start >= -1, end <= length of the text, and end >= start - the last one is what catches
+// at+len wrapping around (the end is computed by an addition of two client-supplied integers).
+// The tests may sit in toTree itself or in the converter it calls (then the span is kept only
+// behind the converter's success).
+func (c *Ctx) checkDraftySpanBounds() {
+	r := c.R
+	const rule = "C13.6-drafty-span-bounds"
+	toTree := c.ssaFn("server/drafty", "toTree")
+	atF := c.field("server/drafty", "span", "at")
+	endF := c.field("server/drafty", "span", "end")
+	if toTree == nil || atF == nil || endF == nil {
+		return
+	}
+	r.Func(fk(toTree))
+	// (the loads as written: the walker's value forwarding would resolve them to the client's style)
+	rawLoad := func(f *types.Var) core.VPred {
+		return func(v ssa.Value) bool {
+			g, _ := core.LoadedField(v)
+			return g != nil && g == f
+		}
+	}
+	isAt, isEnd := rawLoad(atF), rawLoad(endF)
+	isSpanPtr := func(t types.Type) bool {
+		p, ok := t.(*types.Pointer)
+		if !ok {
+			return false
+		}
+		n, ok := p.Elem().(*types.Named)
+		return ok && n.Obj().Name() == "span"
+	}
+	// the sinks: stores of a *span into a slice element (what `append(spans, &s)` compiles to) and
+	// calls of append with a []*span
+	var sinks []ssa.Instruction
+	core.AllInstrs(toTree, func(in ssa.Instruction) {
+		if st, ok := in.(*ssa.Store); ok && isSpanPtr(st.Val.Type()) {
+			_, isIdx := st.Addr.(*ssa.IndexAddr)
+			_, fresh := st.Val.(*ssa.Alloc) // the span built from the client's style, not one re-filed later
+			if isIdx && fresh {
+				sinks = append(sinks, in)
+			}
+		}
+	})
+	guards := []struct {
+		name string
+		g    core.Guard
+		why  string
+	}{
+		{"start >= -1", core.LessGuard("at < -1", isAt, core.IsConstInt(-1), false), "a span starting before -1 is kept"},
+		{"end <= length of the text in graphemes", core.LessGuard("len < end", func(v ssa.Value) bool {
+			// the length the renderer slices by (graphemes.length()), not the byte length of the string
+			call, ok := v.(*ssa.Call)
+			return ok && call.Call.StaticCallee() != nil && core.InModule(call.Call.StaticCallee())
+		}, isEnd, false), "a span ending beyond the text (counted in graphemes, as the renderer slices it) is kept"},
+		{"end >= start (no wrap-around of at+len)", core.Guard{Name: "end < at", Match: func(a core.CondAtom) (bool, bool) {
+			if a.Op != token.LSS {
+				return false, false
+			}
+			if isEnd(a.X) && isAt(a.Y) {
+				return true, false
+			}
+			// or the addition is tested before it is made: `at > MaxInt - len`
+			for _, side := range []ssa.Value{a.X, a.Y} {
+				if b, ok := core.Strip(side).(*ssa.BinOp); ok && b.Op == token.SUB {
+					if _, isK := core.Strip(b.X).(*ssa.Const); isK {
+						return true, side == a.X // (MaxInt - len) < at must be false; at < (MaxInt-len)... is the pass side when true
+					}
+				}
+			}
+			return false, false
+		}}, "the end of a span is at+len of two client-supplied integers and can wrap around: a negative end passes the upper range test and the renderer slices the text out of range (panic in the push goroutine)"},
+	}
+	// the converter(s) called in toTree whose success the sink depends on
+	var convs []*ssa.Call
+	core.AllInstrs(toTree, func(in ssa.Instruction) {
+		if call, ok := in.(*ssa.Call); ok {
+			if g := call.Call.StaticCallee(); g != nil && core.InPkg(g, "server/drafty") && errIndex(g.Signature) >= 0 && len(g.Blocks) > 0 {
+				convs = append(convs, call)
+			}
+		}
+	})
+	n := 0
+	for _, sink := range sinks {
+		n++
+		for _, gd := range guards {
+			saved := core.NoLift
+			core.NoLift = true
+			ok, cnt := core.GuardedBy(toTree, sink, gd.g)
+			if !(ok && cnt[0] > 0) {
+				// in the converter: every success return behind the test, and the sink behind its success
+				for _, cv := range convs {
+					g := cv.Call.StaticCallee()
+					ei := errIndex(g.Signature)
+					all, k := true, 0
+					core.AllInstrs(g, func(in ssa.Instruction) {
+						ret, isRet := in.(*ssa.Return)
+						if !isRet || !core.IsNil(core.Strip(ret.Results[ei])) {
+							return
+						}
+						k++
+						o2, c2 := core.GuardedBy(g, ret, gd.g)
+						if !(o2 && c2[0] > 0) {
+							all = false
+						}
+					})
+					if all && k > 0 {
+						o3, c3 := core.GuardedBy(toTree, sink, successGuard(cv))
+						if o3 && c3[0] > 0 {
+							ok, cnt = true, []int{1}
+						}
+					}
+				}
+			}
+			core.NoLift = saved
+			r.Check(ok && cnt[0] > 0, rule, fmt.Sprintf("%s: span kept only behind %s", fk(toTree), gd.name), c.pos(sink), "", gd.why)
+		}
+	}
+	r.Check(n >= 1, rule, "spans kept by toTree", "-", fmt.Sprintf("%d", n), "none: anchor lost")
+	// the entity a style refers to: the client's key indexes the entity list only behind 0 <= key < len
+	keyF := c.field("server/drafty", "span", "key")
+	if keyF == nil {
+		return
+	}
+	isKey := rawLoad(keyF)
+	isLen := func(v ssa.Value) bool {
+		call, ok := v.(*ssa.Call)
+		if !ok {
+			return false
+		}
+		b, ok := call.Call.Value.(*ssa.Builtin)
+		return ok && b.Name() == "len"
+	}
+	k := 0
+	core.AllInstrs(toTree, func(in ssa.Instruction) {
+		ia, ok := in.(*ssa.IndexAddr)
+		if !ok || !isKey(ia.Index) {
+			return
+		}
+		k++
+		saved := core.NoLift
+		core.NoLift = true
+		okHi, cHi := core.GuardedBy(toTree, ia, core.LessGuard("key < len(ent)", isKey, isLen, true))
+		okLo, cLo := core.GuardedBy(toTree, ia, core.LessGuard("key < 0", isKey, core.IsConstInt(0), false))
+		core.NoLift = saved
+		construct := fmt.Sprintf("%s: entity list indexed by the style's key only behind 0 <= key < len #%d", fk(toTree), k)
+		r.Check(okHi && cHi[0] > 0 && okLo && cLo[0] > 0, rule, construct, c.pos(ia), "",
+			"the entity list is indexed by a client-supplied key that is not tested against both ends of the list: index out of range in the push goroutine")
+	})
+	r.Check(k >= 1, rule, "entity lookups by key in toTree", "-", fmt.Sprintf("%d", k), "none: anchor lost")
+}
+
+// checkCompoundCommandsComparedByHead (C10): presence commands travel as "status+command"
+// ("on+en", "off+dis", "?unkn+en"); a function that is handed such a compound by one of its callers
+// must not decide on the status by comparing the whole string with the bare status: the compound
+// would take the other branch (an "on+en" that does not solicit the contacts' status). For every
+// string parameter of a function in package server that receives a constant containing '+' at some
+// call site: no equality test of the parameter itself with a constant K such that a caller passes
+// "K+...".
+func (c *Ctx) checkCompoundCommandsComparedByHead() {
+	r := c.R
+	const rule = "C10.4c-compound-command-compared-by-head"
+	n := 0
+	for _, fn := range c.P.ModFuncs {
+		if !core.InPkg(fn, "server") || fn.Parent() != nil {
+			continue
+		}
+		for idx, p := range fn.Params {
+			if b, ok := p.Type().Underlying().(*types.Basic); !ok || b.Kind() != types.String {
+				continue
+			}
+			heads := map[string]string{} // head -> one compound constant with that head
+			for _, cs := range c.callersOf(fn) {
+				args := cs.Site.Common().Args
+				if cs.Site.Common().IsInvoke() || idx >= len(args) {
+					continue
+				}
+				k, ok := args[idx].(*ssa.Const)
+				if !ok || k.Value == nil || k.Value.Kind() != constant.String {
+					continue
+				}
+				s := constant.StringVal(k.Value)
+				if i := strings.Index(s, "+"); i > 0 {
+					heads[s[:i]] = s
+				}
+			}
+			if len(heads) == 0 {
+				continue
+			}
+			n++
+			r.Func(fk(fn))
+			var bad ssa.Instruction
+			var badK string
+			core.AllInstrs(fn, func(in ssa.Instruction) {
+				b, ok := in.(*ssa.BinOp)
+				if !ok || (b.Op != token.EQL && b.Op != token.NEQ) || bad != nil {
+					return
+				}
+				for _, pr := range [][2]ssa.Value{{b.X, b.Y}, {b.Y, b.X}} {
+					if pr[0] != ssa.Value(p) {
+						continue
+					}
+					k, ok := pr[1].(*ssa.Const)
+					if !ok || k.Value == nil || k.Value.Kind() != constant.String {
+						continue
+					}
+					if _, hit := heads[constant.StringVal(k.Value)]; hit {
+						bad, badK = in, constant.StringVal(k.Value)
+					}
+				}
+			})
+			detail := ""
+			if bad != nil {
+				detail = fmt.Sprintf("%s is compared as a whole with %q, but a caller passes %q: the compound takes the other branch (its status part is ignored)", p.Name(), badK, heads[badK])
+			}
+			pos := c.P.Pos(fn.Pos())
+			if bad != nil {
+				pos = c.pos(bad)
+			}
+			r.Check(bad == nil, rule, fmt.Sprintf("%s: %s decided by its status part", fk(fn), p.Name()), pos, "", detail)
+		}
+	}
+	r.Check(n >= 1, rule, "functions handed a compound presence command", "-", fmt.Sprintf("%d", n), "none: anchor lost")
+}
+
+// checkSuspensionVisitsEveryTopic (C03): a suspended account's topics are made read-only by a
+// callback handed to Range over the hub's topic registry. Range stops at the first callback that
+// returns false; the callback that marks topics read-only therefore returns only the constant true
+// (a `return false` for a topic of somebody else ends the walk and leaves the user's remaining
+// topics writable).
+func (c *Ctx) checkSuspensionVisitsEveryTopic() {
+	r := c.R
+	const rule = "C03.8-suspension-visits-every-topic"
+	mark := c.method("server", "Topic", "markReadOnly")
+	if mark == nil {
+		return
+	}
+	n := 0
+	for _, fn := range c.P.ModFuncs {
+		if !core.InPkg(fn, "server") || fn.Parent() == nil {
+			continue
+		}
+		calls := false
+		core.AllInstrs(fn, func(in ssa.Instruction) {
+			if call, ok := in.(*ssa.Call); ok && core.CalleeOf(&call.Call) == mark {
+				calls = true
+			}
+		})
+		if !calls || fn.Signature.Results().Len() != 1 {
+			continue
+		}
+		if b, ok := fn.Signature.Results().At(0).Type().Underlying().(*types.Basic); !ok || b.Kind() != types.Bool {
+			continue
+		}
+		// handed to a Range
+		toRange := false
+		core.AllInstrs(fn.Parent(), func(in ssa.Instruction) {
+			call, ok := in.(*ssa.Call)
+			if !ok {
+				return
+			}
+			f := core.CalleeOf(&call.Call)
+			if f == nil || f.Name() != "Range" {
+				return
+			}
+			for _, a := range call.Call.Args {
+				if mc, ok := a.(*ssa.MakeClosure); ok && mc.Fn == ssa.Value(fn) {
+					toRange = true
+				}
+				if a == ssa.Value(fn) {
+					toRange = true
+				}
+			}
+		})
+		if !toRange {
+			continue
+		}
+		n++
+		r.Func(fk(fn))
+		var bad ssa.Instruction
+		core.AllInstrs(fn, func(in ssa.Instruction) {
+			if ret, ok := in.(*ssa.Return); ok && bad == nil {
+				k, isK := ret.Results[0].(*ssa.Const)
+				if !isK || k.Value == nil || !constant.BoolVal(k.Value) {
+					bad = in
+				}
+			}
+		})
+		pos := c.P.Pos(fn.Pos())
+		if bad != nil {
+			pos = c.pos(bad)
+		}
+		r.Check(bad == nil, rule, fk(fn)+": the callback that marks topics read-only never stops the walk", pos, "",
+			"the Range callback can return false: the walk over the hub's topics ends there and the remaining topics of the suspended user stay writable")
+	}
+	r.Check(n >= 1, rule, "Range callbacks that mark topics read-only", "-", fmt.Sprintf("%d", n), "none: anchor lost")
+}
+
+// checkAttachmentLoopVisitsEveryEntry (C16): the loops that turn the attachment URLs of a message
+// into file ids (MediaHandler.GetIdFromUrl) skip an entry that is not a local upload and go on; they
+// have no exit other than the end of the list - a `break` on the first foreign URL leaves the local
+// files after it unlinked, and the garbage collector removes them although the message exists.
+func (c *Ctx) checkAttachmentLoopVisitsEveryEntry() {
+	r := c.R
+	const rule = "C16.5f-attachment-loop-visits-every-entry"
+	n := 0
+	for _, fn := range c.P.ModFuncs {
+		if !core.InPkg(fn, "server/store") && !core.InPkg(fn, "server") {
+			continue
+		}
+		var calls []*ssa.Call
+		core.AllInstrs(fn, func(in ssa.Instruction) {
+			if call, ok := in.(*ssa.Call); ok && call.Call.IsInvoke() && call.Call.Method.Name() == "GetIdFromUrl" {
+				calls = append(calls, call)
+			}
+		})
+		for _, call := range calls {
+			// the innermost loop around the call: header h with a back edge from a block that the call's block reaches
+			var header *ssa.BasicBlock
+			for e := range backEdges(fn) {
+				h := e.From.Succs[e.Idx]
+				if h.Dominates(call.Block()) && (header == nil || header.Dominates(h)) {
+					header = h
+				}
+			}
+			if header == nil {
+				continue // not in a loop
+			}
+			// the loop body: blocks dominated by the header from which a back edge to it is reachable
+			inLoop := map[*ssa.BasicBlock]bool{header: true}
+			var mark func(b *ssa.BasicBlock)
+			mark = func(b *ssa.BasicBlock) {
+				if inLoop[b] || !header.Dominates(b) {
+					return
+				}
+				inLoop[b] = true
+				for _, p := range b.Preds {
+					mark(p)
+				}
+			}
+			for e := range backEdges(fn) {
+				if e.From.Succs[e.Idx] == header {
+					mark(e.From)
+				}
+			}
+			n++
+			r.Func(fk(fn))
+			var bad *ssa.BasicBlock
+			for b := range inLoop {
+				if b == header {
+					continue
+				}
+				for _, s := range b.Succs {
+					if !inLoop[s] && (bad == nil || b.Index < bad.Index) {
+						bad = b
+					}
+				}
+			}
+			pos := c.pos(call)
+			if bad != nil && len(bad.Instrs) > 0 {
+				pos = c.pos(bad.Instrs[len(bad.Instrs)-1])
+			}
+			construct := fmt.Sprintf("%s: the attachment loop ends only at the end of the list", fk(fn))
+			if k := countSame(r, rule, construct); k > 0 {
+				construct = fmt.Sprintf("%s #%d", construct, k+1)
+			}
+			r.Check(bad == nil, rule, construct, pos, "",
+				"the loop over the attachments of a message can be left before the end of the list: local uploads listed after the entry that ends it are never linked to the message and are garbage-collected while the message exists")
+		}
+	}
+	r.Check(n >= 2, rule, "attachment loops", "-", fmt.Sprintf("%d", n), "fewer than two: anchor lost")
+}
+
+// checkTagsNormalisedBeforeSort (C19): normalizeTags de-duplicates by comparing neighbours of the
+// sorted list; the entries are therefore brought to their canonical spelling (trimmed, lower case)
+// before the sort: no call of strings.ToLower / strings.TrimSpace is reachable from sort.Strings.
+func (c *Ctx) checkTagsNormalisedBeforeSort() {
+	r := c.R
+	const rule = "C19.3b-tags-normalised-before-sort"
+	fn := c.ssaFn("server", "normalizeTags")
+	if fn == nil {
+		return
+	}
+	r.Func(fk(fn))
+	var sorts, folds []ssa.Instruction
+	core.AllInstrs(fn, func(in ssa.Instruction) {
+		call, ok := in.(*ssa.Call)
+		if !ok {
+			return
+		}
+		switch calleeFullName(call) {
+		case "sort.Strings", "slices.Sort":
+			sorts = append(sorts, in)
+		case "strings.ToLower", "strings.TrimSpace":
+			folds = append(folds, in)
+		}
+	})
+	// the folding may sit in a helper called per entry
+	core.AllInstrs(fn, func(in ssa.Instruction) {
+		call, ok := in.(*ssa.Call)
+		if !ok {
+			return
+		}
+		if g := call.Call.StaticCallee(); g != nil && core.InModule(g) && len(g.Blocks) > 0 {
+			core.AllInstrs(g, func(in2 ssa.Instruction) {
+				if c2, ok := in2.(*ssa.Call); ok {
+					if nm := calleeFullName(c2); nm == "strings.ToLower" || nm == "strings.TrimSpace" {
+						folds = append(folds, in)
+					}
+				}
+			})
+		}
+	})
+	r.Check(len(sorts) >= 1 && len(folds) >= 1, rule, fk(fn)+": sorts the list and folds the entries", c.P.Pos(fn.Pos()), fmt.Sprintf("%d sort, %d fold", len(sorts), len(folds)), "anchor lost: no sort or no case/space folding in normalizeTags")
+	isFold := func(in ssa.Instruction) bool {
+		for _, f := range folds {
+			if f == in {
+				return true
+			}
+		}
+		return false
+	}
+	for i, s := range sorts {
+		found, w := core.PathAvoiding(fn, s, isFold, nil, nil)
+		r.Check(!found, rule, fmt.Sprintf("%s: no entry is re-spelled after sort #%d", fk(fn), i+1), c.pos(s), "",
+			"an entry is trimmed / lower-cased"+posOf(c, w)+" after the list was sorted: the neighbour comparison that removes duplicates runs over a list that is no longer sorted by the spelling it compares, so case or space variants of one tag survive")
+	}
+}
+
+// checkValidatedOnlyWhenNothingMissing (C11): the token issued at login carries FeatureValidated
+// only when no credential is missing - Session.login skips credential validation for a token with
+// that bit. In onLogin the bit is or-ed into the features only where the list of missing
+// credentials is empty.
+func (c *Ctx) checkValidatedOnlyWhenNothingMissing() {
+	r := c.R
+	const rule = "C11.4e-validated-bit-only-when-nothing-missing"
+	fn := c.ssaMethod("server", "Session", "onLogin")
+	fv := c.konst("server/auth", "FeatureValidated")
+	if fn == nil || fv == nil {
+		return
+	}
+	r.Func(fk(fn))
+	var missing *ssa.Parameter
+	for _, p := range fn.Params {
+		if sl, ok := p.Type().Underlying().(*types.Slice); ok {
+			if b, ok := sl.Elem().Underlying().(*types.Basic); ok && b.Kind() == types.String {
+				missing = p
+			}
+		}
+	}
+	if missing == nil {
+		c.lost("[]string parameter of Session.onLogin (missing credentials)")
+		return
+	}
+	lenMissing := isLenOf(func(v ssa.Value) bool { return core.Strip(v) == ssa.Value(missing) })
+	g := core.Guard{Name: "len(missing)==0", Match: func(a core.CondAtom) (bool, bool) {
+		switch a.Op {
+		case token.LSS:
+			if core.IsConstInt(0)(a.X) && lenMissing(a.Y) {
+				return true, false // 0 < len(missing) must be false
+			}
+		case token.EQL:
+			if (lenMissing(a.X) && core.IsConstInt(0)(a.Y)) || (lenMissing(a.Y) && core.IsConstInt(0)(a.X)) {
+				return true, true
+			}
+		}
+		return false, false
+	}}
+	n := 0
+	core.AllInstrs(fn, func(in ssa.Instruction) {
+		b, ok := in.(*ssa.BinOp)
+		if !ok || b.Op != token.OR || !(core.IsConstOf(fv)(b.X) || core.IsConstOf(fv)(b.Y)) {
+			return
+		}
+		n++
+		saved := core.NoLift
+		core.NoLift = true
+		okG, cnt := core.GuardedBy(fn, b, g)
+		core.NoLift = saved
+		r.Check(okG && cnt[0] > 0, rule, fmt.Sprintf("%s: FeatureValidated set only with no credential missing #%d", fk(fn), n), c.pos(b), "",
+			"the validated bit is put into the features although credentials may be missing: the token sent along with the 300 'validate credentials' reply logs in without validation")
+	})
+	r.Check(n >= 1, rule, "places where onLogin sets FeatureValidated", "-", fmt.Sprintf("%d", n), "none: anchor lost")
+}
+
+// checkDeltaReturnsOnlyChunks (C05): AccessMode.Delta renders a change as "+added-removed" and
+// ApplyDelta undoes exactly that format ("" and "N" mean "no change" there). Delta therefore never
+// returns a fixed word: each of its returns yields the assembled chunks or the empty string - a
+// shortcut such as `return "N"` for "nothing left" is read back as "no change".
+func (c *Ctx) checkDeltaReturnsOnlyChunks() {
+	r := c.R
+	const rule = "C05.4f-delta-returns-only-chunks"
+	fn := c.ssaMethod("server/store/types", "AccessMode", "Delta")
+	if fn == nil {
+		return
+	}
+	r.Func(fk(fn))
+	n := 0
+	core.AllInstrs(fn, func(in ssa.Instruction) {
+		ret, ok := in.(*ssa.Return)
+		if !ok || len(ret.Results) != 1 {
+			return
+		}
+		n++
+		bad := ""
+		// the value is "" or built from chunks that start with '+' or '-'
+		var okv func(v ssa.Value, d int) bool
+		okv = func(v ssa.Value, d int) bool {
+			if d > 6 {
+				return false
+			}
+			switch x := v.(type) {
+			case *ssa.Const:
+				if x.Value != nil && x.Value.Kind() == constant.String && constant.StringVal(x.Value) == "" {
+					return true
+				}
+				bad = x.String()
+				return false
+			case *ssa.Phi:
+				for _, e := range x.Edges {
+					// `s = m.String(); if s != "" { s = "-" + s }`: the bare edge is the empty one
+					signed := false
+					for _, e2 := range x.Edges {
+						if b, ok := e2.(*ssa.BinOp); ok && b.Op == token.ADD && b.Y == e {
+							if k, ok := b.X.(*ssa.Const); ok && k.Value != nil && k.Value.Kind() == constant.String {
+								if sg := constant.StringVal(k.Value); sg == "+" || sg == "-" {
+									signed = true
+								}
+							}
+						}
+					}
+					if signed {
+						continue
+					}
+					if !okv(e, d+1) {
+						return false
+					}
+				}
+				return len(x.Edges) > 0
+			case *ssa.BinOp:
+				if x.Op != token.ADD {
+					break
+				}
+				if k, ok := x.X.(*ssa.Const); ok && k.Value != nil && k.Value.Kind() == constant.String {
+					if s := constant.StringVal(k.Value); s == "+" || s == "-" {
+						return true // a chunk: sign + letters
+					}
+				}
+				return okv(x.X, d+1) && okv(x.Y, d+1)
+			}
+			// a whole mode rendered as text (`ModeNone.String()`) is a word, not a chunk; anything else
+			// (a strings.Builder, a helper) is taken as assembled
+			if call, ok := v.(*ssa.Call); ok {
+				if f := core.CalleeOf(&call.Call); f != nil {
+					if sig, ok := f.Type().(*types.Signature); ok && sig.Recv() != nil && isModeType(sig.Recv().Type()) {
+						bad = v.String()
+						return false
+					}
+				}
+			}
+			return true
+		}
+		good := okv(ret.Results[0], 0)
+		r.Check(good, rule, fmt.Sprintf("%s: return #%d yields the assembled chunks or \"\"", fk(fn), n), c.pos(ret), "",
+			fmt.Sprintf("Delta can return %s, a word that is not a sequence of '+'/'-' chunks: ApplyDelta does not read it as the change it stands for, so applying the delta of (old, new) to old no longer gives new", bad))
+	})
+	r.Check(n >= 1, rule, "returns of AccessMode.Delta", "-", fmt.Sprintf("%d", n), "none: anchor lost")
+}
+
+// checkQueryBoundsOneToOne (C04): the bounds of a history or deletion-log query go to the store as
+// the client gave them: QueryOpt.Since is filled from MsgGetOpts.SinceId and QueryOpt.Before from
+// MsgGetOpts.BeforeId, never from the other one (an inverted range is empty; a helper that "fixes"
+// it by swapping the bounds returns messages the query did not ask for).
+func (c *Ctx) checkQueryBoundsOneToOne() {
+	r := c.R
+	const rule = "C04.1e-query-bounds-one-to-one"
+	sinceQ := c.field("server/store/types", "QueryOpt", "Since")
+	beforeQ := c.field("server/store/types", "QueryOpt", "Before")
+	sinceR := c.field("server", "MsgGetOpts", "SinceId")
+	beforeR := c.field("server", "MsgGetOpts", "BeforeId")
+	if sinceQ == nil || beforeQ == nil || sinceR == nil || beforeR == nil {
+		return
+	}
+	n := 0
+	for _, fn := range c.P.ModFuncs {
+		if !core.InPkg(fn, "server") {
+			continue
+		}
+		for _, pr := range []struct {
+			q, own, other *types.Var
+		}{{sinceQ, sinceR, beforeR}, {beforeQ, beforeR, sinceR}} {
+			for _, st := range core.StoresToField(fn, pr.q) {
+				fromOwn := derivesAny(st.Val, core.IsFieldLoad(pr.own))
+				fromOther := derivesAny(st.Val, core.IsFieldLoad(pr.other))
+				if !fromOwn && !fromOther {
+					continue // a constant or a value of the server's own
+				}
+				n++
+				r.Func(fk(fn))
+				construct := fmt.Sprintf("%s: QueryOpt.%s comes from the request's %s only", fk(fn), pr.q.Name(), pr.own.Name())
+				if k := countSame(r, rule, construct); k > 0 {
+					construct = fmt.Sprintf("%s #%d", construct, k+1)
+				}
+				r.Check(!fromOther, rule, construct, c.pos(st), "",
+					fmt.Sprintf("QueryOpt.%s can take the value of the request's %s: the query handed to the store is not the range the client asked for (an inverted range must stay empty)", pr.q.Name(), pr.other.Name()))
+			}
+		}
+	}
+	r.Check(n >= 2, rule, "query bounds filled from the request", "-", fmt.Sprintf("%d", n), "fewer than two: anchor lost")
 }
